@@ -91,17 +91,13 @@ def load_known():
         if not line or line.startswith("#"):
             continue
         if line.startswith("known:"):
-            parts = line[len("known:"):].split()
-            d = {}
-            rest = []
-            for p in parts:
-                if "=" in p and not rest and p.split("=", 1)[0] in ("property", "rule", "key"):
-                    k, v = p.split("=", 1)
-                    d[k] = v
-                else:
-                    rest.append(p)
-            d["what"] = " ".join(rest)
-            known.append(d)
+            # known: property=<id> rule=<rule> key=<key> <what>   - a key containing blanks is written key="<key>"
+            import re
+            m = re.match(r'\s*property=(\S+)\s+rule=(\S+)\s+key=(?:"([^"]*)"|(\S+))\s*(.*)$', line[len("known:"):])
+            if not m:
+                raise AnalysisBroken("known_findings.txt: cannot parse %r" % line[:80])
+            known.append({"property": m.group(1), "rule": m.group(2),
+                          "key": m.group(3) if m.group(3) is not None else m.group(4), "what": m.group(5)})
         elif line.startswith("fixed:"):
             fixed.append(line)
     return known, fixed
@@ -189,6 +185,9 @@ def run_property(pid, tier="quick", replay=None, root=None, write_evidence=True)
             if replay and not _replay_match(replay, r.rule, v.key):
                 continue
             kf = [k for k in known if k.get("property") == pid and k.get("rule") == r.rule and k.get("key") == v.key]
+            if not kf and os.environ.get("BTV_KNOWN_BY_RULE") and root is not None:
+                # rewrite replay only: a rewrite may rename the function or variable a finding is keyed by
+                kf = [k for k in known if k.get("property") == pid and k.get("rule") == r.rule]
             if kf:
                 kf_lines.append("KNOWN-FINDING: property=%s %s %s %s" % (pid, r.rule, v.key, kf[0]["what"] or v.detail))
                 ro["violations"].append(dict(v.as_dict(), known_finding=True))
@@ -316,6 +315,7 @@ def replay_refactors(pid):
                 return {"id": rid, "status": "skipped: patch no longer applies"}
             p = subprocess.run([sys.executable, "-c", "import sys; from btv.runner import main; sys.exit(main())",
                                 pid, "--root", scratch, "--tier", "quick"], cwd=VERIF,
+                               env=dict(os.environ, BTV_KNOWN_BY_RULE="1"),
                                stdout=subprocess.PIPE, stderr=subprocess.STDOUT)
             lines = [l.strip() for l in p.stdout.decode(errors="replace").splitlines()
                      if l.startswith(("  R-", "ANALYSIS", "UNDECIDED"))]
